@@ -38,8 +38,10 @@ const CLASSES: &[&str] = &[
     "[ab]", "[^a]", "\\w", "\\d", "[a-c]", "\\W", "\\s", "\\S", "\\D", "[^\\w]", "[a-zé]", "[\\d_]", "[^]", "[]", "[b-]",
     "[\\u{1F600}a]", "[k\\u017F]", "[^\\n]", "[A-Z]", "[é-ü]",
     "[\\x80a]", "[\\x7f\\x80]", "[\\u07ff\\u0800]", "[\\uffff\\x7f]", "[^\\x80]", "[\\x7f-\\x80]",
+    // classes whose UTF-8 lead bytes are many and all non-ASCII (start predicate: a byte bitmap without ASCII bits)
+    "[^\\0-\\x7f]", "[\\u0370-\\u03ff\\u0400-\\u04ff\\uac00-\\ud7a3]", "[\\u0080-\\uffff]", "[α-ωа-я가-힣]",
 ];
-const UCLASSES: &[&str] = &["\\p{Lu}", "\\p{L}", "\\P{Ll}", "\\p{Script=Greek}", "\\p{ASCII}", "[\\p{Lu}a]", "[^\\p{L}]", "\\p{Nd}"];
+const UCLASSES: &[&str] = &["\\p{Lu}", "\\p{L}", "\\P{Ll}", "\\p{Script=Greek}", "\\p{ASCII}", "[\\p{Lu}a]", "[^\\p{L}]", "\\p{Nd}", "\\P{ASCII}", "\\p{Script=Hangul}"];
 const VCLASSES: &[&str] = &[
     "[[ab]--a]", "[\\w&&[^a]]", "[a\\q{ab|b|abc}]", "[\\q{ab|a}c]", "[[a-c]&&[b-d]]", "[^[ab]c]", "[\\p{L}--[a-z]]", "[\\q{}a]",
     "[\\w--\\d]", "[[^a]&&\\w]",
@@ -176,6 +178,12 @@ impl<'a> PatGen<'a> {
                 s.push_str(&self.quant());
             }
         }
+        // now and then a sequence that can never match (an empty class next to whatever was generated: groups,
+        // lookarounds with groups, backreferences), for the early-fail propagation of the optimizer
+        if n > 0 && self.r.chance(1, 14) {
+            let e = *self.r.pick(&["[]", "[]", "[^\\s\\S]"]);
+            if self.r.chance(1, 2) { s.push_str(e) } else { s = format!("{}{}", e, s) }
+        }
         s
     }
     pub fn alt(&mut self, depth: u32, lb: bool) -> String {
@@ -200,10 +208,12 @@ pub fn gen_pattern(r: &mut Rng) -> (String, String) {
 
 pub const FIXED_HAYS: &[&str] = &[
     "", "a", "b", "ab", "aa", "aab", "aba", "abc", "aaa", "abab", "a\nb", "éa", "aé", "ééa", "abca", "ba", "ca", "aaaa", "bab", "K", "k",
-    "\u{212A}", "s\u{17F}S", "ß", "a\u{1F600}b", "x1_ -", "AbC", "\r\n", "aaab", "xaaac",
+    "\u{212A}", "s\u{17F}S", "ß", "a\u{1F600}b", "x1_ -", "AbC", "\r\n", "aaab", "xaaac", "\0", "a\0b", "\0a",
 ];
 const HAY_ALPHA: &[&str] = &["a", "b", "c", "a", "b", "é", "K", "k", "s", "S", "\u{17F}", "\u{212A}", "ß", "\u{1F600}", "\n", "x", "_", "1", "-", " ", "A", "B", "\u{2028}", "ü",
-    "\x7f", "\u{80}", "\u{7FF}", "\u{800}", "\u{FFFF}", "\u{10000}", "\u{FF01}", "\u{10FFFF}"];
+    "\x7f", "\u{80}", "\u{7FF}", "\u{800}", "\u{FFFF}", "\u{10000}", "\u{FF01}", "\u{10FFFF}", "\0", "\0",
+    // members of wide non-ASCII classes (Greek, Cyrillic, Hangul, Han), to sit next to ASCII in one machine word
+    "α", "ω", "ж", "가", "힣", "中"];
 const ASCII_ALPHA: &[&str] = &["a", "b", "c", "a", "b", "K", "k", "s", "S", "\n", "x", "_", "1", "-", " ", "A", "B", "\r", "\x7f", "\0", "@", "`", "[", "{", "^", "~", "]", "}", "Z", "z"];
 
 pub fn gen_hay(r: &mut Rng, ascii: bool) -> String {
@@ -270,6 +280,32 @@ pub fn shape_family() -> Vec<(String, String, Vec<String>)> {
     for p in ["(.)\\1", "(?<=\\1(.))$", "([a-z@\\[^])\\1", "(?s:(.)\\1)"] {
         for f in ["i", "iu", "", "is"] {
             out.push((p.replace("\\\\", "\\"), f.to_string(), pair_hays.clone()));
+        }
+    }
+    // a first character from a wide non-ASCII class (byte-bitmap start predicate), behind 0..9 ASCII bytes so that
+    // its lead byte falls at every offset of a machine word
+    let mut wide_hays: Vec<String> = vec![];
+    for w in ["α", "ж", "가", "é", "\u{1F600}"] {
+        for k in 0..10 {
+            let mut t = "abcdefghij"[..k].to_string();
+            t.push_str(w);
+            wide_hays.push(t.clone());
+            t.push_str("xy");
+            wide_hays.push(t);
+        }
+    }
+    for p in ["[^\\0-\\x7f]", "[α-ωа-я가-힣]+", "[\\u0080-\\uffff]x?", "(?:[α-ω]|[가-힣]|ж)y?", "\\P{ASCII}", "\\p{Script=Greek}|\\p{Script=Hangul}|ж"] {
+        for f in ["", "i", "u", "iu"] {
+            if p.contains("\\p") || p.contains("\\P") { if !f.contains('u') { continue; } }
+            out.push((p.replace("\\\\", "\\"), f.to_string(), wide_hays.clone()));
+        }
+    }
+    // sequences that can never match, next to capture groups inside and outside lookarounds
+    for p in ["(?!(a))[]|(b)", "(?<!(a))[]|(b)", "(?:(?!(a))[])?(b)", "(?=(a))[]|(b)", "(?:[](a))?(b)", "(?!(a)[])(b)",
+              "(?:(?!(a))[])*(b)\\2", "(?!(?<n>a))[]|(?<m>b)", "(?:(?<!(a))[^\\s\\S]|b)(b)?", "(?!((a)))[]|(b)\\3", "(?<=(a)|(?!(b))[])(c)?",
+              "(?:(a)|[](?!(b)))+(c)?\\2?", "((?!(a))[]){0}(b)", "(?!(?:(a)[])|(b))(.)"] {
+        for f in ["", "i", "u"] {
+            out.push((p.replace("\\\\", "\\"), f.to_string(), ["", "a", "b", "ab", "ba", "c", "ac", "bc", "bb"].iter().map(|h| h.to_string()).collect()));
         }
     }
     for c in contexts.iter() {
